@@ -18,6 +18,11 @@ def run(P, R, L):
     K.ord8_publication(P, R, L)
     R.clause("GRD-3", "the client iterator and the point lookup bound visibility by the captured sequence")
     K.grd3_sequence_filter(P, R, L)
+    R.clause("GRD-13", "the level>=1 file search orders by the full internal key, so a snapshot read finds the file holding its version")
+    K.grd13_find_file_compares_internal_keys(P, R, L)
+    R.clause("PAIR-9", "boundary expansion keeps all versions of a user key of one level together in a compaction")
+    K.pair9_boundary_inputs(P, R, L)
+    K.pair9_levels(P, R, L)
     R.clause("VERD-1", "a snapshot read continues past a file that holds only newer versions of the key (miss ≠ deleted)")
     K.verd1(P, R, L, what=("table", "version"))
     R.clause("PAIR-1", "version pins held for reads are released (files of a pinned version stay live meanwhile: GRD-5)")
